@@ -27,7 +27,8 @@ from . import irkit, tkit, emit, c02, c03, c05, catalog
 from .common import WORKERS, conc_vt, tname, run_mutants
 
 PROP = "C12"
-FILTER = r"#atom-linearity|#raw|declared-at-most-once|source-read-once|every-effect-once|#loop|#children|#total|inlined-nodes-declare-nothing|#decl\.count|#emit"
+FILTER = (r"#atom-linearity|#raw|declared-at-most-once|source-read-once|every-effect-once|#loop|#children|#total|inlined-nodes-declare-nothing|#decl\.count|#emit|"
+          r"read exactly once|read counter advances|first read raw|each value argument read exactly once")
 
 MUTANTS = [
     {"name": "PureExec.il_read: DUP only from the third use on", "file": "rzilcompiler/Transformer/Pures/PureExec.py",
@@ -364,6 +365,8 @@ def tasks():
     ts += [("contracts.c05", "gen_task", {"what": w}) for w in ("sequence", "effects")]
     ts += [("contracts.c12", "gen_catalog", {"part": p}) for p in ("pureexec", "leaf", "misc")]
     ts += [("contracts.c12", "gen_own", {"what": w}) for w in ("loops", "children")]
+    # argument lists of sub-routine calls: values are read exactly once, a borrowed parameter passed on goes through il_read (C08's contracts)
+    ts += [("contracts.c08", "gen_task", {"what": w}) for w in ("build_arg_list", "call_text")]
     return ts
 
 
@@ -377,6 +380,9 @@ def generate_reduced(loader, check):
         gen_catalog(loader, check, p, False)
     gen_emit_loops(loader, check, False)
     gen_children(loader, check, False)
+    from . import c08
+    c08.gen_build_arg_list(loader, check, False)
+    c08.gen_call_text(loader, check, False)
 
 
 def run(check: Check):
